@@ -6,6 +6,7 @@ package simhost
 import (
 	"fmt"
 	"strconv"
+	"strings"
 	"time"
 
 	dragonboat "github.com/lni/dragonboat/v4"
@@ -84,6 +85,7 @@ type Host struct {
 	joined       bool // member of the shard (initial or added)
 	initial      bool // initial member
 	removed      bool
+	selfRemoved  bool
 	role         int  // current role as far as the harness knows
 	joinRole     int  // role it was first added with: what its config must say
 	addIssued    bool // an add request for it is outstanding or of unknown outcome
@@ -195,18 +197,18 @@ func (c Cfg) String() string {
 		c.PSnapshotReq, c.PMembership, c.FSYield, c.SMYield, c.TornTail, c.Sessions)
 }
 
-// tapeRand feeds goutils' process wide random source from the tape.
-type tapeRand struct {
-	s   *Sim
-	ctr uint64
+// auxRand feeds goutils' process wide random source (election jitter, request
+// keys) from a PRNG seeded with the run's aux seed: deterministic per run, but
+// deliberately NOT taken from the tape, because a shrunk tape is mostly zeros
+// and zero jitter makes two candidates time out in lockstep forever (a
+// livelock that real randomness rules out).
+type auxRand struct {
+	r *choice.SplitMix64
 }
 
-func (t *tapeRand) Uint64() uint64 {
-	t.ctr++
-	return t.ctr<<20 | uint64(t.s.src.Intn(1<<16)) | 1<<19
-}
-func (t *tapeRand) Int63() int64 { return int64(t.Uint64() >> 1) }
-func (t *tapeRand) Seed(int64)   {}
+func (t *auxRand) Uint64() uint64 { return t.r.Next() | 1 }
+func (t *auxRand) Int63() int64   { return int64(t.r.Next() >> 1) }
+func (t *auxRand) Seed(int64)     {}
 
 func (s *Sim) nodeHostConfig(h *Host) config.NodeHostConfig {
 	return config.NodeHostConfig{
@@ -421,7 +423,7 @@ func Run(ctx *runner.Ctx) *runner.Result {
 	s := &Sim{ctx: ctx, src: ctx.Src, addrToHost: map[string]int{}, trToHost: map[*transport.Transport]int{}}
 	s.cfg = drawCfg(ctx)
 	ctx.Tracef("cfg %s", s.cfg.String())
-	SetProcessRand(&tapeRand{s: s})
+	SetProcessRand(&auxRand{r: choice.NewSplitMix(ctx.Src.Aux)})
 	s.ex = coro.New()
 	// with NotifyCommit every request owns a bridging goroutine (ResultC), so
 	// goroutine states must be inspected after every step
@@ -535,6 +537,20 @@ func (s *Sim) taskPanicked(t *coro.Task) {
 	if t.Dead {
 		return // unwinding of a dead host's task: anything goes
 	}
+	msg := fmt.Sprint(t.Panic)
+	if s.orc.dupFired > 0 && (strings.Contains(msg, "committedC is full") || strings.Contains(msg, "CompletedC is full")) && t.Host >= 0 {
+		// explained fail-stop: the network duplicated a forwarded proposal, the
+		// same request key is in the log twice and the requesting NodeHost
+		// panics on the second notification. Duplication is outside the
+		// quantifier of C12; for the properties that include it (C02, C03, C06)
+		// this is a process crash like any other.
+		s.ctx.Count("probe.panic_duplicate_notification", 1)
+		h := s.hosts[t.Host]
+		if h.up || h.booting {
+			s.crashHost(h, false)
+		}
+		return
+	}
 	panic(runner.ForwardedPanic{Val: t.Panic, Stack: t.Stack})
 }
 
@@ -573,6 +589,11 @@ func (s *Sim) options(tickers bool) []option {
 		}
 	}
 	for _, k := range s.net.nonEmpty() {
+		// one connection = one reader: the next frame of a lane is handled only
+		// after the previous one has been handled completely
+		if to := s.hosts[k.to]; to.up && to.busy != nil && to.busy[laneOwner(k)] != nil {
+			continue
+		}
 		opts = append(opts, option{kind: 2, lane: k})
 	}
 	for _, c := range s.clients {
@@ -674,7 +695,17 @@ func (s *Sim) execOption(o option) {
 	}
 }
 
+func laneOwner(k laneKey) string {
+	if k.chunk {
+		return fmt.Sprintf("conn-chunk-%d", k.from)
+	}
+	return fmt.Sprintf("conn-msg-%d", k.from)
+}
+
 func (s *Sim) deliver(k laneKey, idx int) {
+	if to := s.hosts[k.to]; to.up && to.busy != nil && to.busy[laneOwner(k)] != nil {
+		return
+	}
 	f := s.net.take(k, idx)
 	to := s.hosts[k.to]
 	if s.net.cut[k.from][k.to] {
@@ -693,7 +724,7 @@ func (s *Sim) deliver(k laneKey, idx int) {
 		s.ctx.Ev("deliverchunk", uint64(k.from), uint64(k.to), c.ChunkId, c.Index)
 		s.ctx.Count("ev.deliverchunk", 1)
 		raw := to.rawTransport
-		s.runTask("chunk", to, "", func() { raw.chunks(c) })
+		s.runTask("chunk", to, laneOwner(k), func() { raw.chunks(c) })
 		return
 	}
 	var mb pb.MessageBatch
@@ -702,7 +733,7 @@ func (s *Sim) deliver(k laneKey, idx int) {
 	s.ctx.Count("ev.deliver", 1)
 	s.orc.onDeliver(k.from, k.to, mb)
 	tr := to.tr
-	s.runTask("deliver", to, "", func() { tr.VerifHandleRequest(mb) })
+	s.runTask("deliver", to, laneOwner(k), func() { tr.VerifHandleRequest(mb) })
 }
 
 // afterStep polls client results and runs the per-step invariants.
@@ -736,6 +767,7 @@ func (s *Sim) maybeFaults() {
 			f := l.frames[0]
 			s.net.push(k, frame{data: f.data, typ: f.typ})
 			s.ctx.Count("fault.dup", 1)
+			s.orc.dupFired++
 			s.ctx.Ev("dup:"+f.typ.String(), uint64(k.from), uint64(k.to))
 		}
 	}
@@ -822,7 +854,7 @@ func (s *Sim) crashHost(h *Host, teardown bool) {
 	if s.cfg.TornTail && !teardown {
 		torn = func(path string, unsynced int) (int, bool) {
 			keep := s.src.Intn(unsynced + 1)
-			garble := keep > 0 && s.src.Chance(1, 4)
+			garble := false // garbage sectors are outside the fault model of the properties (unsynced data is lost, never invented)
 			if keep > 0 {
 				s.ctx.Count("fault.torn_tail", 1)
 			}
